@@ -467,8 +467,14 @@ class Transformer(ast.NodeTransformer):
         names += [n for n in self.extra_havoc.get(k, ()) if n not in names]
         names_c = ast.Tuple(elts=[_const(n) for n in names], ctx=ast.Load())
         itv = f"__it{k}"
+        # the accumulator of the loop, by role: the one local that the body appends / adds to (contracts refer to it
+        # as e.acc, so that renaming it or writing the loop as a comprehension does not matter)
+        accs = sorted({c.func.value.id for st in node.body for c in ast.walk(st)
+                       if isinstance(c, ast.Call) and isinstance(c.func, ast.Attribute) and c.func.attr in ("append", "add")
+                       and isinstance(c.func.value, ast.Name) and c.func.value.id in names})
+        acc = _const(accs[0] if len(accs) == 1 else None)
         pre = ast.Assign(targets=[ast.Name(id=ctl, ctx=ast.Store())],
-                         value=_call("loop", _const(k), node.iter, _locals(), names_c))
+                         value=_call("loop", _const(k), node.iter, _locals(), names_c, acc))
         sym = self._ctl_attr(ctl, "sym")
         head = ast.If(test=sym,
                       body=self._havoc_stmts(ctl, names) + [self._ctl_call(ctl, "assume_inv", _locals())],
